@@ -680,6 +680,8 @@ def build_unit(unit_dir, repo, reach=False):
 
     for rel in U.get('prelude', []):
         add_file('prelude', rel)
+    if U.get('broadcast_use'):
+        mark('prelude', lambda: P.append(Piece('\nbroadcast use {%s};\n' % ', '.join(U['broadcast_use']))))
     for rel in U.get('spec', []):
         add_file('spec', rel)
     if U.get('lemmas'):
